@@ -9,6 +9,8 @@ import (
 )
 
 func runC20(c *Ctx, r *Report) {
+	r.Rule("C20.R8", "every definition reaches the index: every path through object.record either takes the `ids == nil` edge or calls Trie.Insert with the key parameter itself, and Environment.create calls record")
+	c.checkRecordInserts(r, "C20.R8")
 	r.Rule("C20.R1", "terminal marking: on every path through one iteration of Insert's byte loop on which the byte is the last of the word, the child reached is marked as a word: the shared end marker is stored, a node is created with valid=true, or valid=true is stored on the existing node")
 	r.Rule("C20.R2", "validity survives the end-marker upgrade and is not invented: a node created in Insert gets valid=true exactly on the path where the replaced child was the end marker (the flag is a per-byte value: true from the end-marker arm, false from the nil arm, never carried over from an earlier byte)")
 	r.Rule("C20.R6", "the enumeration (AllBytes) returns before its child scan only under a condition that means the node has no children: nil receiver, the leaf flag of the shared end marker, or min > max")
@@ -562,4 +564,73 @@ func (c *Ctx) noChildrenCond(cc ctrlCond, ab *ssa.Function, minIdx, maxIdx, leaf
 		}
 	}
 	return false
+}
+
+// checkRecordInserts: rule C20.R8, every definition reaches the index.
+//
+// object.record is the only feeder of the completion index for top level names (create() calls it for every
+// new global, RegisterTrie for the existing ones). Every path from its entry to a return either takes the
+// `ids == nil` edge (no index registered) or inserts the name itself: a call of Trie.Insert whose argument
+// is the key parameter unchanged. A further condition in front of the insertion (e.g. "already a prefix of
+// something known") makes membership depend on the order of definitions.
+func (c *Ctx) checkRecordInserts(r *Report, rule string) {
+	fn := c.SSAFn(c.Fn("object", "record"))
+	insert := c.Fn("trie", "Trie.Insert")
+	if fn == nil || len(fn.Params) < 2 {
+		r.Undecided("%s: object.record(ids, key, ...) not found", rule)
+		return
+	}
+	ids, key := fn.Params[0], fn.Params[1]
+	isInsertOfKey := func(in ssa.Instruction) bool {
+		call, ok := in.(*ssa.Call)
+		if !ok || calleeObj(call) != insert {
+			return false
+		}
+		args := call.Common().Args
+		return len(args) == 2 && args[0] == ssa.Value(ids) && args[1] == ssa.Value(key)
+	}
+	// walk: paths that avoid the insertion and do not take the ids == nil edge
+	var bad *ssa.Return
+	seen := map[*ssa.BasicBlock]bool{}
+	var walk func(b *ssa.BasicBlock)
+	walk = func(b *ssa.BasicBlock) {
+		if bad != nil || seen[b] {
+			return
+		}
+		seen[b] = true
+		for _, in := range b.Instrs {
+			if isInsertOfKey(in) {
+				return
+			}
+			if ret, ok := in.(*ssa.Return); ok {
+				bad = ret
+				return
+			}
+		}
+		if ifi, ok := b.Instrs[len(b.Instrs)-1].(*ssa.If); ok {
+			if bin, ok := ifi.Cond.(*ssa.BinOp); ok && bin.X == ssa.Value(ids) && isNilConst(bin.Y) {
+				// the nil edge needs nothing
+				nilEdge := 0
+				if bin.Op == token.NEQ {
+					nilEdge = 1
+				}
+				walk(b.Succs[1-nilEdge])
+				return
+			}
+		}
+		for _, s := range b.Succs {
+			walk(s)
+		}
+	}
+	walk(fn.Blocks[0])
+	pos := c.Pos(fn.Pos())
+	if bad != nil {
+		pos = c.Pos(bad.Pos())
+	}
+	r.Check(bad == nil, rule, ssaFuncName(fn), "every path with an index inserts the name", pos,
+		"a path through record() returns without Trie.Insert(key) although an index is registered: whether a defined name can be completed then depends on something else than its definition (e.g. on the names defined before it)")
+	// and create() feeds it
+	create := c.SSAFn(c.Fn("object", "Environment.create"))
+	r.Check(len(callsIn(create, c.Fn("object", "record"))) > 0, rule, ssaFuncName(create), "new top level names are recorded", c.Pos(create.Pos()),
+		"Environment.create no longer calls record(): new globals never reach the completion index")
 }
